@@ -72,6 +72,13 @@ def main():
             print(f"VIOLATION property={prop} replay={a.replay}")
         return 0 if ok else 1
 
+    # coq/gen and the compiled model are shared: runs against /repo may overlap each other, a run against any other
+    # tree (seeded changes in scratch worktrees) must have the build directory to itself
+    import fcntl
+    os.makedirs(coqrun.BUILD, exist_ok=True)
+    _lock = open(os.path.join(coqrun.BUILD, "tree.lock"), "w")
+    fcntl.flock(_lock, fcntl.LOCK_SH if os.path.realpath(REPO) == "/repo" else fcntl.LOCK_EX)
+
     t0 = time.time()
     broken = []          # obligations / ties that no longer check
     assumptions_out = ""
